@@ -10,7 +10,8 @@ application from the alphabet
   ops    : BFS from every leaf to depth 2 over the full alphabet (3 over a 6-value sub-alphabet in thorough)
   chains : one left-deep expression of depth 6 over 2 values evaluated once per assignment of the five classes
            to its seven leaves (5^7), compared with float evaluation
-Oracle: the same operator applied to the operands' .dec() floats; tolerance 1e-8"; class of the left operand.
+Oracle: the same operator applied to the decimal degrees the operands DENOTE (read from their public fields, never through
+the library's own dec()); tolerance 1e-8"; class of the left operand.
 """
 import itertools
 import math
@@ -22,7 +23,7 @@ from gpmc.core import Sub
 PROPERTY = 'C12'
 TOL_DEG = 1e-8 / 3600.0
 ASSUMPTIONS = [
-    'the reference is IEEE float arithmetic on the operands\' .dec() values (float error << 1e-8")',
+    'the reference is IEEE float arithmetic on the decimal degrees the operands denote, read from their public fields (float error << 1e-8")',
     'intermediate magnitudes are kept below 720 deg: states beyond are not expanded',
     'reflected operators are invoked explicitly (a.__rsub__(b) must equal b - a); the class rule is asserted for the '
     'direct forms, where the left operand is unambiguous',
@@ -63,6 +64,22 @@ def leaf(value, kind):
     return cfg.as_type(value, kind)
 
 
+def den(o):
+    """decimal degrees the object denotes, from its public fields (never through the library's own dec())"""
+    k = type(o)
+    if k is ga.DMSAngle:
+        v = o.degree + o.minute / 60.0 + o.second / 3600.0
+        return v if o.positive else -v
+    if k is ga.DDMAngle:
+        v = o.degree + o.minute / 60.0
+        return v if o.positive else -v
+    if k is ga.DECAngle:
+        return float.__float__(o)
+    if k is ga.GONAngle:
+        return o.gon_angle * 0.9
+    return cfg.denote(o)
+
+
 def all_leaves(values):
     out = []
     for v in values:
@@ -90,11 +107,11 @@ def in_unit(o, kind):
 
 def transitions(a, ka, leaves):
     """yields (label, callable, expected_dec or None, expected_class or None, kind) for every enabled operator"""
-    da = a.dec()
+    da = den(a)
     for (v, kb, b) in leaves:
         if b is None:
             continue
-        db = b.dec()
+        db = den(b)
         lab = '%s:%r' % (kb, v)
         yield ('add ' + lab, lambda b=b: a + b, da + db, ka, 'val')
         yield ('sub ' + lab, lambda b=b: a - b, da - db, ka, 'val')
@@ -108,7 +125,7 @@ def transitions(a, ka, leaves):
     yield ('abs', lambda: abs(a), abs(da), ka, 'val')
     for k in KS:
         yield ('mul %r' % k, lambda k=k: a * k, da * k, ka, 'val')
-        if not isinstance(k, _np.generic):      # numpy_scalar * angle is numpy's own operation (DECAngle is a float)
+        if not isinstance(k, _np.generic) or ka != 'deca':      # numpy_scalar * DECAngle is numpy's own operation (DECAngle is a float)
             yield ('rmul %r' % k, lambda k=k: k * a, k * da, ka, 'val')
         yield ('div %r' % k, lambda k=k: a / k, da / k, ka, 'val')
     if ka in ('dms', 'ddm'):
@@ -176,7 +193,7 @@ def explore(rec, start, depth, leaves):
                              coords={'path': path + [label], 'cls': ka, 'change': ch})
                     rec.outcome('round-bad')
             else:
-                dv = abs(r.dec() - exp)
+                dv = abs(den(r) - exp)
                 if not (dv <= TOL_DEG + 1e-15 * abs(exp)):
                     rec.fail('operator result differs from the same operation on the decimal-degree values',
                              site='angles:%s.%s' % (ka, label.split()[0]), observed=repr(r), expected=exp, tol=TOL_DEG,
@@ -192,19 +209,27 @@ def explore(rec, start, depth, leaves):
             if k not in seen:
                 seen.add(k)
                 rec.states.add(hash(k) & 0xFFFFFFFFFFFFFFFF)
-                if abs(r.dec()) < 720.0:
+                if abs(den(r)) < 720.0:
                     frontier.append((r, d + 1, path + [label]))
     for (v, kb, b) in leaves:
-        if b is not None and abs(b.dec() - v) > 1e-9:
+        if b is not None and abs(den(b) - v) > 1e-9:
             rec.fail('a right-hand operand was modified in place during the exploration', site='angles:operand:mutation',
                      observed=repr(b), expected=v)
     rec.outcome('explored')
+
+
+FORM_KINDS = ['dmss', 'ddms', 'dmsa', 'ddma', 'dmsr', 'ddmr']      # other legal constructions of DMS / DDM objects (gpmc.cfg)
 
 
 def gen_ops(tier, seed):
     for v in VALUES:
         for k in CLASSES:
             yield {'value': v, 'cls': k, 'depth': 3, 'alphabet': 'full'}
+    # operands that reached their value by another legal construction: rebuilt from their text form, public fields
+    # assigned after construction, a library result whose fields were then assigned
+    for v in [0.0, -S, 0.5, -0.3, 2.0 + 1.0 / 60, -(59.0 + 59.0 / 60 + 59.999999 / 3600), 90.0, 1.0 + 1e-11]:
+        for k in FORM_KINDS:
+            yield {'value': v, 'cls': k, 'depth': 2, 'alphabet': 'forms'}
     if tier == 'thorough':
         for v in [0.0, S, -0.5, 0.3, -(2.0 + 1.0 / 60), 60.0]:
             for k in CLASSES:
@@ -218,6 +243,8 @@ def ev_ops(case, rec):
     al = case['alphabet']
     if al not in _LEAVES:
         _LEAVES[al] = all_leaves(VALUES if al == 'full' else [0.0, S, -0.5, 0.3, -(2.0 + 1.0 / 60), 60.0])
+        if al == 'forms':
+            _LEAVES[al] = _LEAVES[al] + [(v, k, leaf(v, k)) for v in (0.3, -0.5, 60.0, -S) for k in FORM_KINDS]
     rec.nontriv()
     explore(rec, (case['value'], case['cls']), case['depth'], _LEAVES[al])
     rec.sample(case)
@@ -246,12 +273,12 @@ def ev_chain(case, rec):
         except Exception as e:
             rec.fail('valid angle could not be constructed', site='angles:construct', observed=e, case=dict(case, rest=list(rest)))
             continue
-        fl = objs[0].dec()
+        fl = den(objs[0])
         acc = objs[0]
         try:
             for b, o in zip(objs[1:], CH_OPS):
                 acc = acc + b if o == '+' else acc - b
-                fl = fl + b.dec() if o == '+' else fl - b.dec()
+                fl = fl + den(b) if o == '+' else fl - den(b)
                 rec.transitions += 1
         except Exception as e:
             rec.fail('expression raised under one assignment of classes to its leaves', site='angles:chain', observed=e,
@@ -259,7 +286,7 @@ def ev_chain(case, rec):
             continue
         rec.nontriv(assign)
         rec.state(key(acc))
-        dv = abs(acc.dec() - fl)
+        dv = abs(den(acc) - fl)
         rec.dev('chain_arcsec', dv * 3600)
         if not (dv <= 6 * TOL_DEG) or kind_of(acc) != case['c0']:
             rec.fail('the same expression evaluates to a different angle / class under this assignment of classes',
@@ -274,11 +301,11 @@ def ev_chain_single(case, rec):
         # replay of one assignment
         assign = (case['c0'], case['c1']) + tuple(case['rest'])
         objs = [leaf(v, k) for v, k in zip(CH_VALUES, assign)]
-        acc, fl = objs[0], objs[0].dec()
+        acc, fl = objs[0], den(objs[0])
         for b, o in zip(objs[1:], CH_OPS):
             acc = acc + b if o == '+' else acc - b
-            fl = fl + b.dec() if o == '+' else fl - b.dec()
-        if abs(acc.dec() - fl) > 6 * TOL_DEG or kind_of(acc) != case['c0']:
+            fl = fl + den(b) if o == '+' else fl - den(b)
+        if abs(den(acc) - fl) > 6 * TOL_DEG or kind_of(acc) != case['c0']:
             rec.fail('the same expression evaluates to a different angle / class under this assignment of classes',
                      site='angles:chain', observed=repr(acc), expected=fl)
         return
